@@ -206,7 +206,9 @@ def run(ctx):
     rels = []
     dfr_a = "\n".join(ln for ln in corpus.test_pdb_text("4DFR").splitlines() if not (corpus.is_atom(ln) and ln[21] != "A")) + "\n"
     inputs = [("3SGB-subset", corpus.test_pdb_text("3SGB-subset")), ("frag-1HPX-A20+12", corpus.fragment("1HPX", "A", 20, 12)),
-              ("4DFR-A (two conformations, ligand)", dfr_a)]
+              ("4DFR-A (two conformations, ligand)", dfr_a),
+              ("conf-model-missing-atoms", corpus.test_pdb_text("conf-model-missing-atoms")),
+              ("conf-alt-AB", corpus.test_pdb_text("conf-alt-AB"))]
     if ctx.thorough():
         inputs += [("4DFR", corpus.test_pdb_text("4DFR")), ("1HPX", corpus.test_pdb_text("1HPX"))]
     for name, text in inputs:
@@ -216,13 +218,22 @@ def run(ctx):
             continue
         lo, hi = py_range(5)
         natoms = sum(1 for ln in text.splitlines() if corpus.is_atom(ln))
-        for mode in ("upper", "lower", "mixed", "negative", "descending", "hetero-descending"):
+        for mode in ("upper", "lower", "mixed", "negative", "descending", "hetero-descending", "restart-per-model", "all-equal",
+                     "restart-per-model-hy36"):
             out = []
             k = 0
             for ln in text.splitlines():
+                if ln.startswith("MODEL") and mode.startswith("restart"):
+                    k = 0                        # the NMR habit: serials start again in every MODEL
                 if corpus.is_atom(ln):
                     k += 1
-                    if mode == "descending":
+                    if mode == "restart-per-model":
+                        n = k
+                    elif mode == "restart-per-model-hy36":
+                        n = 100000 + k
+                    elif mode == "all-equal":
+                        n = 7
+                    elif mode == "descending":
                         n = 90000 - k
                     elif mode == "hetero-descending":
                         n = (90000 - k) if ln.startswith("HETATM") else k
